@@ -221,11 +221,16 @@ def get_folding_profile_section(
     if profile is None:
         str_ += "Could not determine folding profile\n"
     else:
-        delta = round(Decimal(window[2]),2)
+        delta = round(Decimal(window[2]), 3)
+        window_min = round(Decimal(window[0]), 3)
+        window_max = round(Decimal(window[1]), 3)
         for (ph, dg) in profile:
             ph = round(Decimal(ph), 3)
-            if ph >= window[0] and ph <= window[1]:
-                if ph % delta < 0.05 or ph % delta > 0.95:
+            if ph >= window_min and ph <= window_max:
+                # print the grid points that lie on the window
+                # window_min + i*delta (rounding to 0.001 removes the
+                # floating point noise of the grid)
+                if (ph - window_min) % delta == 0:
                     str_ += "{0:>6.2f}{1:>10.2f}\n".format(ph, dg)
         str_ += "\n"
     if ph_opt is None or dg_opt is None:
